@@ -416,3 +416,148 @@ def to_str_num_concrete(p, m):
         return ok, 'to_str(%r, %d) = %r is a full unit in the last place (or more) away from x = %s' % (x, dps, s, xv)
     ok = 2 * diff <= unit
     return ok, 'to_str(%r, %d) = %r is not a nearest %d-digit decimal of x (|x - printed| = %s units in the last place)' % (x, dps, s, dps, float(diff / unit))
+
+
+# ------------------------------------------------------------------------------ repr carries enough digits to round-trip
+def lemma_repr_digits(p):
+    """repr(x) prints repr_dps(prec) significant digits.  With nearest printing (to_str obligations) and nearest parsing (C07),
+    parsing the printed literal gives back x whenever 10**(n-1) > 2**prec (Matula 1968); this obligation lets z3 (QF_LIRA)
+    decide that inequality for every precision 1 <= prec <= 2**20 on the real formulas of repr_dps / prec_to_dps (constants and
+    expression shapes read from /repo's source; double arithmetic in the standard model, relative error 2**-53 per operation).
+    A satisfiable query names a precision; it is reported as a violation only if an exhaustive native search over that
+    precision's mantissas finds a value whose repr does not parse back to it (possible for small precisions), otherwise as
+    inconclusive."""
+    import ast
+    import time
+    from pysym import srcmap
+    from checks.fam_prec import _conv_constants
+    L = libmpf()
+    res = dict(status='inconclusive', detail='', stats=dict(queries=0, solver_s=0.0, forks=0, merges=0, calls=0, funcs={}, cov={}, extra={}))
+    node, info = srcmap.lookup(L.repr_dps)
+    res['stats']['funcs'][info['name']] = info
+    node2, info2 = srcmap.lookup(L.prec_to_dps)
+    res['stats']['funcs'][info2['name']] = info2
+    cs = _conv_constants()
+    body = [s for s in node.body if not (isinstance(s, ast.Expr) and isinstance(s.value, ast.Constant))]
+    # accepted shapes:  dps = prec_to_dps(n); if dps == A [and n <= K]: return B; return dps + C
+    shape_ok, K = cs is not None and len(body) == 3, None
+    A = Bc = C = None
+    if shape_ok:
+        try:
+            ifn = body[1]
+            test = ifn.test
+            if isinstance(test, ast.BoolOp) and isinstance(test.op, ast.And) and len(test.values) == 2:
+                t2 = test.values[1]
+                assert ast.dump(t2.left) == ast.dump(ast.parse('n', mode='eval').body) and isinstance(t2.ops[0], ast.LtE) and len(t2.ops) == 1
+                K = t2.comparators[0].value
+                test = test.values[0]
+            A = test.comparators[0].value
+            Bc = ifn.body[0].value.value
+            C = body[2].value.right.value
+            templ = ast.parse('dps = prec_to_dps(n)\nif dps == %d%s:\n    return %d\nreturn dps + %d' % (A, '' if K is None else ' and n <= %d' % K, Bc, C)).body
+            shape_ok = all(type(v) is int for v in (A, Bc, C)) and [ast.dump(x) for x in body] == [ast.dump(x) for x in templ]
+        except Exception:
+            shape_ok = False
+    if not shape_ok:
+        res['detail'] = 'Unsupported: repr_dps / prec_to_dps do not have the expected expression shape'
+        return res
+    c1 = Fraction(cs[0])
+    LOG = Fraction(3321928094887362, 10 ** 15)          # a lower bound of log2(10) = 3.32192809488736234...
+    P = z3.Int('prec')
+    x2 = z3.Real('x2')
+    qr, dps, n = z3.Ints('qr dps n')
+    R = lambda f: z3.RealVal(str(f))
+    delta = Fraction(1, 1 << 29)
+    s = z3.Solver()
+    s.set('timeout', 60000)
+    s.add(P >= 1, P <= (1 << 20))
+    s.add(x2 >= z3.ToReal(P) * R(1 / c1) - R(delta), x2 <= z3.ToReal(P) * R(1 / c1) + R(delta))
+    s.add(z3.ToReal(qr) - x2 <= R(Fraction(1, 2)), x2 - z3.ToReal(qr) <= R(Fraction(1, 2)))
+    s.add(dps == z3.If(qr - 1 < 1, 1, qr - 1))
+    s.add(n == z3.If(z3.And(dps == A, P <= K) if K is not None else dps == A, Bc, dps + C))
+    t0 = time.time()
+    s.push()
+    s.add(z3.ToReal(n - 1) * R(LOG) <= z3.ToReal(P))
+    r = s.check()
+    bad = s.model()[P].as_long() if str(r) == 'sat' else None
+    s.pop()
+    r2 = s.check()
+    res['stats']['queries'] = 2
+    res['stats']['solver_s'] = round(time.time() - t0, 3)
+    if str(r) == 'unsat' and str(r2) == 'sat':
+        res['status'] = 'proved'
+        res['witness'] = {'prec': s.model()[P].as_long(), 'digits': s.model()[n].as_long()}
+        return res
+    if bad is not None:
+        # ask the solver for a concrete value of that precision whose nearest n-digit decimal is nearer to a neighbouring
+        # binary value (so that nearest parsing cannot return the original): linear integer constraints per (exponent, decade)
+        nd = None
+        sm = z3.Solver()
+        sm.set('timeout', 60000)
+        mm, DD = z3.Ints('man D')
+        Lrep = L.repr_dps(bad)
+        found = None
+        import math
+        for e in (-bad - 26, -80, -60, -bad, 3, 40):
+            top = Fraction(2) ** (e + bad)          # values in [2^(e+bad-1), 2^(e+bad))
+            for q in (math.floor(math.log10(float(top) / 2)) - (Lrep - 1) + d for d in (0, 1)):
+                # common scale: multiply by 2^a * 5^b so that both 2^e and 10^q become integers
+                a = max(-e, -q, 0)
+                b5 = max(-q, 0)
+                S = (2 ** a) * (5 ** b5)
+                ux = int(Fraction(2) ** e * S)          # one binary unit
+                ud = int(Fraction(10) ** q * S)         # one decimal unit
+                if ux * Fraction(1) != Fraction(2) ** e * S or ud * Fraction(1) != Fraction(10) ** q * S:
+                    continue
+                sm.push()
+                sm.add(mm >= 2 ** (bad - 1), mm < 2 ** bad, DD >= 10 ** (Lrep - 1), DD < 10 ** Lrep)
+                X, V = mm * ux, DD * ud
+                sm.add(2 * (X - V) <= ud, 2 * (V - X) <= ud - 1)              # D is the (unique) nearest n-digit decimal of x
+                sm.add(z3.Or(z3.And(V > X, 2 * (V - X) > ux), z3.And(V < X, 2 * (X - V) > ux)))   # but D is nearer to a neighbour of x
+                rr = sm.check()
+                res['stats']['queries'] += 1
+                if str(rr) == 'sat':
+                    found = dict(prec=bad, man=sm.model()[mm].as_long(), exp=e)
+                sm.pop()
+                if found:
+                    break
+            if found:
+                break
+        res['status'] = 'violated'
+        res['model'] = found or {'prec': bad}
+        res['detail'] = 'repr_dps(%d) = %d digits do not satisfy 10**(n-1) > 2**prec%s' % (bad, Lrep, '; solver witness man=%d exp=%d' % (found['man'], found['exp']) if found else '')
+        return res
+    res['detail'] = 'solver: %s / %s' % (r, r2)
+    return res
+
+
+def lemma_repr_digits_concrete(p, m):
+    """native confirmation: the smallest precisions at which the digit count is insufficient, searched exhaustively for a value
+    whose repr does not parse back"""
+    L = libmpf()
+    tried = 0
+    if m and m.get('man'):
+        prec = m['prec']
+        man, e = m['man'], m['exp']
+        while man % 2 == 0:
+            man, e = man // 2, e + 1
+        x = (0, man, e, man.bit_length())
+        s = L.to_str(x, L.repr_dps(prec))
+        y = L.from_str(s, prec, 'n')
+        tried += 1
+        if tuple(y) != x:
+            return False, 'at precision %d repr prints %d digits: %r prints as %r, which parses back (same precision, nearest) to %r' % (prec, L.repr_dps(prec), x, s, tuple(y))
+    precs = [q for q in range(1, 25) if 10 ** (L.repr_dps(q) - 1) <= 2 ** q]
+    for prec in precs[:6]:
+        n = L.repr_dps(prec)
+        for e in range(-12, 13):
+            for man in range((1 << (prec - 1)) | 1, 1 << prec, 2) if prec > 1 else [1]:
+                x = (0, man, e, prec)
+                s = L.to_str(x, n)
+                y = L.from_str(s, prec, 'n')
+                tried += 1
+                if tuple(y) != x:
+                    return False, 'prec %d: repr digits %d; %r prints as %r which parses back to %r' % (prec, n, x, s, tuple(y))
+                if tried > 400000:
+                    break
+    return None, 'UNCONFIRMED: digit-count inequality fails for prec %r but no round-trip failure found among %d values of small precisions' % (m.get('prec') if m else None, tried)
